@@ -41,39 +41,54 @@ def scan_forbidden():
     return bad
 
 
+def property_files(pid):
+    """Properties/Cxx.v plus complements such as Properties/CxxLink.v, Properties/CxxMore.v"""
+    d = os.path.join(VERIF, "coq", "Properties")
+    out = []
+    for f in sorted(glob.glob(os.path.join(d, pid + "*.v"))):
+        text = open(f).read()
+        if re.search(r"^Theorem\s+\w+", text, flags=re.M):
+            out.append(os.path.basename(f)[:-2])
+    return out
+
+
 def theorems_of(pid):
-    path = os.path.join(VERIF, "coq", "Properties", pid + ".v")
-    if not os.path.exists(path):
-        return []
-    return re.findall(r"^Theorem\s+(\w+)", open(path).read(), flags=re.M)
+    out = []
+    for m in property_files(pid):
+        text = open(os.path.join(VERIF, "coq", "Properties", m + ".v")).read()
+        out.extend((m, t) for t in re.findall(r"^Theorem\s+(\w+)", text, flags=re.M))
+    return out
 
 
 def audit(pid):
     """-> (obligations, discharged, details, broken_reason)"""
     thms = theorems_of(pid)
     if not thms:
-        return 0, 0, [], "no Properties/%s.v" % pid
-    vo = os.path.join(VERIF, "coq", "Properties", pid + ".vo")
-    q = sh(["make", "-q", "Properties/%s.vo" % pid], cwd=os.path.join(VERIF, "coq"))
-    if q.returncode != 0 or not os.path.exists(vo):
-        log = open(os.path.join(BUILD, "logs", "coq_make.log")).read()
-        errs = re.findall(r"File \"[^\"]*\", line \d+.*?\n(?:.*\n){0,8}?Error:?.*(?:\n.*){0,6}", log)
-        return len(thms), 0, [], "Properties/%s.vo does not build: %s" % (pid, (errs[0] if errs else log[-1500:]))
+        return 0, 0, [], "no theorem in coq/Properties/%s*.v" % pid
+    mods = property_files(pid)
+    for m in mods:
+        vo = os.path.join(VERIF, "coq", "Properties", m + ".vo")
+        q = sh(["make", "-q", "Properties/%s.vo" % m], cwd=os.path.join(VERIF, "coq"))
+        if q.returncode != 0 or not os.path.exists(vo):
+            log = open(os.path.join(BUILD, "logs", "coq_make.log")).read()
+            errs = re.findall(r"File \"[^\"]*\", line \d+.*?\n(?:.*\n){0,8}?Error:?.*(?:\n.*){0,6}", log)
+            return len(thms), 0, [], "Properties/%s.vo does not build: %s" % (m, (errs[0] if errs else log[-1500:]))
     adir = os.path.join(BUILD, "audit")
     os.makedirs(adir, exist_ok=True)
     f = os.path.join(adir, pid + "_audit.v")
     with open(f, "w") as fh:
-        fh.write("From Slinky Require Import Properties.%s.\n" % pid)
-        for t in thms:
-            fh.write("Print Assumptions %s.\n" % t)
-    r = sh(["coqc", "-Q", os.path.join(VERIF, "coq"), "Slinky", f], cwd=adir, timeout=600)
+        for m in mods:
+            fh.write("From Slinky Require Properties.%s.\n" % m)
+        for m, t in thms:
+            fh.write("Print Assumptions Slinky.Properties.%s.%s.\n" % (m, t))
+    r = sh(["coqc", "-Q", os.path.join(VERIF, "coq"), "Slinky", f], cwd=adir, timeout=900)
     if r.returncode != 0:
         return len(thms), 0, [], "audit failed: " + r.stdout[-1500:]
     chunks = re.split(r"(?m)^(?=Closed under the global context|Axioms:)", r.stdout)
     chunks = [c for c in chunks if c.strip()]
     details = []
     ok = 0
-    for t, c in zip(thms, chunks):
+    for (m, t), c in zip(thms, chunks):
         if c.startswith("Closed under the global context"):
             details.append((t, "closed"))
             ok += 1
@@ -106,7 +121,7 @@ def jhash(x):
 # the check itself
 # ---------------------------------------------------------------------------------------------------
 
-TIER_CASES = {"quick": 400, "thorough": 12000}
+TIER_CASES = {"quick": 900, "thorough": 20000}
 
 TRUSTED_BASE = [
     "Coq 8.16.1 kernel via coqc (full .vo build; vm_compute used, no native_compute)",
@@ -167,6 +182,7 @@ def safe_for_files(doc, opts):
 
 
 def write_replay(pid, seed, n, payload):
+    os.makedirs(os.path.join(VERIF, "replays"), exist_ok=True)
     p = os.path.join(VERIF, "replays", "%s-%d-%d.json" % (pid, seed, n))
     with open(p, "w") as f:
         json.dump(payload, f, indent=1, default=str)
@@ -177,6 +193,7 @@ def run_check(pid, tier, seed, replay=None, ncases=None):
     from . import run, props, monitors
     t0 = time.time()
     pid = pid.upper()
+    os.makedirs(os.path.join(BUILD, "scratch"), exist_ok=True)
     if replay:
         return do_replay(pid, replay)
     violations = []          # (replay path, suffix)
@@ -244,19 +261,28 @@ def run_check(pid, tier, seed, replay=None, ncases=None):
 
     # extra, property-specific dynamic checks (determinism runs, real linker, CLI ...)
     extra = monitors.dynamic(pid, tier, seed, cases)
+    dyn_payload = {}
     for e in extra.get("violations", []):
         fail_cases.append((e["case"], e.get("impl"), None, [e["what"]]))
+        dyn_payload[id(e["case"])] = {k: v for k, v in e.items() if k not in ("case", "impl", "what")}
     stats["features"].update(extra.get("features", {}))
     stats["evaluations"] += extra.get("evaluations", 0)
+    if extra.get("ld_model_mismatch"):
+        notes.append("LdSem differs from GNU ld on %d linked cases (model of the linker, not of /repo): %s"
+                     % (len(extra["ld_model_mismatch"]), json.dumps(extra["ld_model_mismatch"][:3], default=str)))
 
     # ---- verdict
     nrep = 0
     if fail_cases:
         c, ji, jm, fails = fail_cases[0]
-        c2 = shrink_case(pid, c, lambda cc, j: bool(monitors.check(pid, cc, j)) if not extra.get("violations") else False)
+        if id(c) in dyn_payload:
+            c2 = c
+        else:
+            c2 = shrink_case(pid, c, lambda cc, j: bool(monitors.check(pid, cc, j)))
         nrep += 1
         p = write_replay(pid, seed, nrep, {"property": pid, "kind": "property-fails-on-input",
                                            "what": fails, "case": c2.to_json() if hasattr(c2, "to_json") else c2,
+                                           "executed_check": dyn_payload.get(id(c)),
                                            "original_case": c.to_json() if hasattr(c, "to_json") else c,
                                            "n_failing_cases": len(fail_cases)})
         violations.append((p, ""))
@@ -313,6 +339,7 @@ def run_check(pid, tier, seed, replay=None, ncases=None):
         "wall_s": round(wall, 2),
         "violations": len(violations),
     }
+    os.makedirs(os.path.join(VERIF, "evidence"), exist_ok=True)
     with open(os.path.join(VERIF, "evidence", pid + ".json"), "w") as f:
         json.dump(ev, f, indent=1, default=str)
     for p, suffix in violations:
